@@ -24,6 +24,9 @@ type PairCase struct {
 	// v is built with sub-values that read alike being ONE value reachable several times
 	// (w never is): the two ways of building one value must not be distinguishable
 	ShareV bool `json:"sharev,omitempty"`
+	// w is assembled step by step (containers attached empty, filled afterwards) with the value
+	// under construction rendered after every step
+	StepW bool `json:"stepw,omitempty"`
 }
 
 // dupParts makes sub-values repeat: a list gets a copy of one of its elements appended, map
@@ -203,6 +206,7 @@ func genPairCase(t *rapid.T) *PairCase {
 	if c.Host {
 		c.V, c.W = c.V.Conform(nil), c.W.Conform(nil)
 	}
+	c.StepW = !c.Host && rapid.IntRange(0, 2).Draw(t, "stepw") == 0
 	return c
 }
 
@@ -258,6 +262,9 @@ func toYae(c *PairCase, v *m.Val) (*val.Val, error) {
 	}
 	if c.ShareV && v == c.V {
 		return run.ToYaeValShared(v, nil), nil
+	}
+	if c.StepW && v == c.W {
+		return run.ToYaeValIncremental(v, nil), nil
 	}
 	return run.ToYaeVal(v, nil), nil
 }
@@ -375,6 +382,9 @@ func checkPair(c *PairCase) *Outcome {
 	if c.Host {
 		classes = append(classes, "via-host-data")
 	}
+	if c.StepW && !c.Host {
+		classes = append(classes, "w-assembled-step-by-step-and-rendered-in-between")
+	}
 	big := false
 	var w func(v *m.Val)
 	w = func(v *m.Val) {
@@ -458,7 +468,7 @@ func eachNumPair(yield func(*NumPair) bool) {
 }
 
 func TestC18(t *testing.T) {
-	R.Rule = "pairs (v, w) of one type (primitives, nested lists / maps / objects / optionals to depth 4): w is a copy, a field-order and insertion-order permutation, v with one leaf changed to a clearly different value (numbers identical or differing by > 1e-6, across 2^53 and 2^63; strings needing escapes; instants, several zones), unrelated, or two different values whose texts coincide once strings are written without quotes (a string holding the container's separator); built through the value constructors (one case in six with repeated sub-values being one shared value on the v side only) or as Go host data through conv; oracle: agreement of val.Equals, Val.String equality, Val.Key equality, isset([v:1], w), union / intersect / diff cardinalities, == / != and string(v) == string(w) for equal values, labelled by the model's own equality; reflexivity and symmetry, the rendering of one value repeated eight times; plus all pairs of the boundary numeric pool (incl. neighbouring doubles with a fractional part at seven magnitudes) for distinct renderings and keys; non-trivial = a model-equal pair in another representation, or a pair differing in exactly one leaf"
+	R.Rule = "pairs (v, w) of one type (primitives, nested lists / maps / objects / optionals to depth 4): w is a copy, a field-order and insertion-order permutation, v with one leaf changed to a clearly different value (numbers identical or differing by > 1e-6, across 2^53 and 2^63; strings needing escapes; instants, several zones), unrelated, or two different values whose texts coincide once strings are written without quotes (a string holding the container's separator); built through the value constructors (one case in six with repeated sub-values being one shared value on the v side only) or as Go host data through conv; one case in six assembles w step by step (containers attached empty and filled afterwards through ListVal.Add / MapVal.Put, the value under construction rendered after every step); oracle: agreement of val.Equals, Val.String equality, Val.Key equality, isset([v:1], w), union / intersect / diff cardinalities, == / != and string(v) == string(w) for equal values, labelled by the model's own equality; reflexivity and symmetry, the rendering of one value repeated eight times; plus all pairs of the boundary numeric pool (incl. neighbouring doubles with a fractional part at seven magnitudes) for distinct renderings and keys; non-trivial = a model-equal pair in another representation, or a pair differing in exactly one leaf"
 	R.Assume = []string{"model.ValEqual (harness) labels pairs; numbers inside a pair are identical or clearly different (the property's own restriction)"}
 	reportKnown(t, "C18")
 	runRegress(t, "C18")
